@@ -695,6 +695,8 @@ def check(ctx):
     # large but legal rates (exp(-mu) underflows from mu = 746 on; the scan costs ~mu terms per value, hence the small N)
     small = [("UniformInt(0, 6*10^15)", 3000), ("UniformInt((-2^52), 2^52)", 3000), ("UniformInt(1, 5*10^31)", 3000), ("UniformInt(0, 2^53)", 3000),
              ("Poisson(746)", 80), ("Poisson(1000)", 60), ("Poisson(745)", 60), ("Binomial(1100, 0.999)", 60),
+             # many trials, few expected successes: the law is far from its normal approximation, and a large sample shows it
+             ("Binomial(1001, 0.005)", 30000),
              # parameters at the edge of float precision: 1 - p keeps few of p's digits, and P() and sample() must still agree
              ("Geometric(1.6e-16)", 8000), ("Geometric(7.0e-17)", 8000), ("Geometric(1.5e-9)", 4000), ("Exponential(1.5e-300)", 4000),
              ("Exponential(1.5e300)", 4000), ("Bernoulli(1.5e-17)", 3000)] + \
